@@ -223,6 +223,8 @@ func (it *Interp) coMain(c *Coroutine) {
 					out = coMsg{err: e, done: true}
 				case coClose:
 					out = coMsg{done: true}
+				case coCloseErr:
+					out = coMsg{err: e.err, done: true}
 				case coAbort:
 					out = coMsg{done: true, abort: true}
 				case *Unspecified:
@@ -251,22 +253,20 @@ func (it *Interp) coMain(c *Coroutine) {
 // run so that no goroutine of the reference interpreter is left behind.
 func (it *Interp) abortAll() {
 	for _, c := range it.cos {
-		if c.started && c.status != "dead" {
+		// A suspended coroutine is parked in yield, or on its way there (it may not
+		// have reached the receive yet when its resumer already finished the
+		// program): the send blocks until it does. Nothing else runs meanwhile,
+		// so the unwinding does not race with this goroutine.
+		if c.started && c.status == "suspended" {
 			c.aborted = make(chan struct{}, 1)
+			c.toCo <- coMsg{abort: true}
+			// the acknowledgement, or a last message if the unwinding ended otherwise
 			select {
-			case c.toCo <- coMsg{abort: true}:
-				// the acknowledgement, or a last message if the unwinding ended otherwise
-				select {
-				case <-c.aborted:
-				case <-c.fromCo:
-				}
-			default:
-				// not waiting in yield (it is "normal": suspended inside a resume of
-				// a coroutine that was itself aborted) — it will be collected with its channels
+			case <-c.aborted:
+			case <-c.fromCo:
 			}
-			c.status = "dead"
 		}
+		c.status = "dead"
 	}
-	// whatever is still parked (it should be nothing) is released
 	close(it.done)
 }
